@@ -1,7 +1,9 @@
 //go:build verif
 
 // C26 harness, part 2 (adapter): a real proxy with the BungeeCord plugin channel enabled,
-// Al and Bob on backend "lobby", Cy on backend "games". The fake backend sends BungeeCord
+// Al and Bob on backend "lobby", Cy on backend "games"; a third backend "empty" has no
+// connection at all, but Cy is still in its player list -- the state in the middle of a
+// server switch empty -> games, before the old connection's Disconnected() has run. The fake backend sends BungeeCord
 // requests on Al's connection; the harness records which backend connections and which
 // CLIENTS receive a BungeeCord plugin message. Forwarded payloads carry a nonce, so every
 // observation is attributed to its request by content, not by timing; responses on Al's own
@@ -95,7 +97,7 @@ func TestAdapter(t *testing.T) {
 	const P = rig.P1_20
 	rec := &recorder{}
 	backends := map[string]*rig.Backend{}
-	for _, n := range []string{"lobby", "games"} {
+	for _, n := range []string{"lobby", "games", "empty"} {
 		be, err := rig.NewBackend(nil)
 		if err != nil {
 			t.Fatal(err)
@@ -163,6 +165,10 @@ func TestAdapter(t *testing.T) {
 	if !ok {
 		t.Fatal("players never settled on their servers")
 	}
+	// stale membership: Cy (connected to games) is still listed on "empty"
+	if !r.P.VerifListPlayerOnServer("empty", "Cy") {
+		t.Fatal("cannot list Cy on server empty")
+	}
 	var alConn *rig.BackendConn
 	for _, bc := range backends["lobby"].Conns() {
 		if bc.Name == "Al" {
@@ -182,7 +188,7 @@ func TestAdapter(t *testing.T) {
 		stPlayers = append(stPlayers, map[string]any{"name": bs(p.name), "uuid": bs(hex.EncodeToString(u[:])),
 			"host": bs(h), "port": port, "server": bs(p.server), "modern": true})
 	}
-	for _, n := range []string{"lobby", "games"} {
+	for _, n := range []string{"lobby", "games", "empty"} {
 		h, p, _ := net.SplitHostPort(backends[n].Addr())
 		port, _ := strconv.Atoi(p)
 		stServers = append(stServers, map[string]any{"name": bs(n), "host": bs(h), "port": port})
